@@ -110,6 +110,20 @@ pub proof fn lemma_trem_props(a: int, b: int)
     else { assert(tdiv(a,b) == q); assert(b * q == -(bb*q)) by (nonlinear_arith) requires bb == -b; assert(trem(a,b) == -r); assert(tdiv(a,-b) == -q); assert((-b)*(-q) == -(bb*q)) by (nonlinear_arith) requires bb == -b; }
 }
 
+
+/// sign * (d / p) is the truncated quotient of (sign * d) by p
+pub proof fn lemma_tdiv_sign(g: int, d: int, p: int)
+    requires -1 <= g <= 1, d >= 0, p > 0
+    ensures g * (d / p) == tdiv(g * d, p)
+{
+    if g == 0 { assert(0 * d == 0); assert(0 * (d / p) == 0); assert(0int / p == 0) by { lemma_div_basics(p); } }
+    else if g == 1 { assert(1 * d == d); assert(1 * (d / p) == d / p); }
+    else {
+        assert(-1 * d == -d); assert(-1 * (d / p) == -(d / p));
+        if d == 0 { assert(0int / p == 0) by { lemma_div_basics(p); } }
+    }
+}
+
 // ------------------------------------------------------------------ decimal digit count
 /// least d >= 1 with n < 10^d  (n >= 0)
 pub open spec fn ndigits(n: int) -> int
@@ -266,6 +280,58 @@ pub proof fn lemma_dle_ndigits(s: Seq<u8>)
     lemma_pow10_pos(k);
     assert(pow10(k) * dle(top) >= pow10(k)) by (nonlinear_arith) requires dle(top) >= 1, pow10(k) > 0;
     lemma_ndigits_unique(dle(s), s.len() as int);
+}
+
+
+/// big-endian: k trailing zero digits are a factor 10^k
+pub proof fn lemma_dbe_trailing_zeros(s: Seq<u8>, k: int)
+    requires 0 <= k <= s.len(), forall|i: int| s.len() - k <= i < s.len() ==> s[i] == 0
+    ensures dbe(s) == dbe(s.subrange(0, s.len() - k)) * pow10(k)
+    decreases k
+{
+    if k == 0 {
+        assert(s.subrange(0, s.len() as int) =~= s);
+    } else {
+        let t = s.drop_last();
+        assert(s.last() == 0);
+        lemma_dbe_trailing_zeros(t, k - 1);
+        assert(t.subrange(0, t.len() - (k - 1)) =~= s.subrange(0, s.len() - k));
+        lemma_pow10_succ(k - 1);
+        let x = dbe(s.subrange(0, s.len() - k));
+        assert(10 * (x * pow10(k - 1)) == x * pow10(k)) by (nonlinear_arith) requires pow10(k) == 10 * pow10(k - 1);
+    }
+}
+
+/// big-endian: the last digit is the value mod 10
+pub proof fn lemma_dbe_last_digit(s: Seq<u8>)
+    requires s.len() >= 1, valid_digits(s)
+    ensures dbe(s) % 10 == s.last() as int, dbe(s) >= 0
+    decreases s.len()
+{
+    let t = s.drop_last();
+    if t.len() > 0 { lemma_dbe_last_digit(t); } else { assert(dbe(t) == 0); }
+    assert forall|i: int| 0 <= i < t.len() implies t[i] <= 9 by { assert(t[i] == s[i]); }
+    lemma_dbe_nonneg(t);
+    lemma_fundamental_div_mod_converse(dbe(s), 10, dbe(t), s.last() as int);
+}
+pub proof fn lemma_dbe_nonneg(s: Seq<u8>) ensures dbe(s) >= 0 decreases s.len()
+{ if s.len() > 0 { lemma_dbe_nonneg(s.drop_last()); } }
+
+pub proof fn lemma_mod_sign(g: int, q: int)
+    requires -1 <= g <= 1, g != 0, q >= 0, q % 10 != 0
+    ensures (g * q) % 10 != 0
+{
+    if g == 1 { assert(1 * q == q); }
+    else {
+        assert(-1 * q == -q);
+        // (-q) % 10 == 0  ==>  q % 10 == 0
+        if (-q) % 10 == 0 {
+            lemma_fundamental_div_mod(-q, 10);
+            let d = (-q) / 10;
+            assert(-q == 10 * d);
+            lemma_fundamental_div_mod_converse(q, 10, -d, 0);
+        }
+    }
 }
 
 pub proof fn lemma_dbe_is_dle_rev(s: Seq<u8>)
